@@ -1267,6 +1267,14 @@ func exMakeLoader(docs map[string]json.RawMessage, missing []string, lg *exLoadL
 // the documents of the call in progress.
 var exGlobalLoader atomic.Value // func(string) (json.RawMessage, error)
 
+// exInstallGlobal: what a caller of the entry points without a loader option does before the call - assign the package-level
+// loader.  A new function value every time, serving the documents of this call only (a program that swaps loaders does not
+// reuse one closure).
+func exInstallGlobal(loader func(string) (json.RawMessage, error)) {
+	exGlobalLoader.Store(loader)
+	spec.PathLoader = func(u string) (json.RawMessage, error) { return loader(u) }
+}
+
 func exGlobalLoad(u string) (json.RawMessage, error) {
 	if f, ok := exGlobalLoader.Load().(func(string) (json.RawMessage, error)); ok && f != nil {
 		return f(u)
@@ -1342,7 +1350,7 @@ func exExecWith(c *exCall, global bool) (o *exOutcome) {
 	}()
 	loader := exMakeLoader(c.Docs, c.Missing, lg)
 	if global {
-		exGlobalLoader.Store(loader)
+		exInstallGlobal(loader)
 	}
 	base := c.Root
 	if c.Spelling != "" {
